@@ -22,8 +22,15 @@ pub struct GcRun {
 }
 
 pub fn run_scheduled(im: &mut Impl, forms: &[Cell], sched: GcSchedule, collect_between: bool, with_audit: bool) -> GcRun {
+    run_scheduled_eager(im, forms, sched, collect_between, with_audit, false)
+}
+
+/// `eager`: every place where the VM itself polls the collector (instruction-count poll, end of an evaluation,
+/// failure, slice end, and whatever else calls `run_gc`) collects, whatever the heap utilisation.
+pub fn run_scheduled_eager(im: &mut Impl, forms: &[Cell], sched: GcSchedule, collect_between: bool, with_audit: bool, eager: bool) -> GcRun {
     verif::reset();
     verif::set_schedule(sched);
+    verif::set_eager_gc(eager);
     let log: Rc<RefCell<(u64, Vec<String>, Vec<u64>)>> = Rc::new(RefCell::new((0, vec![], vec![])));
     if with_audit {
         let l = log.clone();
